@@ -95,6 +95,9 @@ func (p *Prog) unitsForProperty(prop string) []string {
 		if c.IsIface || c.Trusted != "" || c.NoVerify {
 			continue
 		}
+		if _, isFn := p.funcs[k]; !isFn && len(c.ParamNames) > 0 {
+			continue // function-type contract: proved by the closures that implement it
+		}
 		in := contains(c.Props, prop)
 		if !in {
 			for _, cl := range c.Ensures {
@@ -243,7 +246,11 @@ func (p *Prog) CheckProperty(prop, tier string, seed int) *CheckResult {
 	var obls []*Obl
 	unitOf := map[*Obl]*Contract{}
 	for _, u := range units {
+		tU := time.Now()
 		r := p.RunUnit(u)
+		if os.Getenv("WALVC_PROF") != "" {
+			fmt.Fprintf(os.Stderr, "prof: exec %s %.1fs\n", u, time.Since(tU).Seconds())
+		}
 		if r.Missing {
 			res.Lines = append(res.Lines, fmt.Sprintf("UNDECIDED target-missing %s", u))
 			res.NUndecided++
@@ -314,7 +321,11 @@ func (p *Prog) CheckProperty(prop, tier string, seed int) *CheckResult {
 	}
 	work := filepath.Join(outDir, "work", prop+"-"+tier)
 	os.RemoveAll(work)
+	tSolve := time.Now()
 	SolveAll(obls, work, timeout, all)
+	if os.Getenv("WALVC_PROF") != "" {
+		fmt.Fprintf(os.Stderr, "prof: first SolveAll %.1fs for %d obligations\n", time.Since(tSolve).Seconds(), len(obls))
+	}
 	// robustness: an obligation that timed out under load is retried alone
 	// with all back ends and a longer timeout before it counts as failed
 	var retry []*Obl
@@ -381,6 +392,10 @@ func (p *Prog) CheckProperty(prop, tier string, seed int) *CheckResult {
 		for _, o := range obls {
 			if o.Kind != "deadprobe" {
 				keep = append(keep, o)
+				continue
+			}
+			if o.Status == "skipped" {
+				aliveUnit[o.Unit] = true
 				continue
 			}
 			probedUnit[o.Unit] = true
